@@ -825,6 +825,20 @@ class Interp:
         if isinstance(st.value, ast.Call):
             fn = st.value.func
             nm = fn.id if isinstance(fn, ast.Name) else (fn.attr if isinstance(fn, ast.Attribute) else '')
+            if nm == 'print' and any(k.arg == 'file' for k in st.value.keywords):
+                # print(..., file=f): one text line appended to f (more if an argument is known to contain a newline);
+                # the ghost line counter of the file and the list of concrete texts are what contracts speak about
+                fobj = self.eval([k.value for k in st.value.keywords if k.arg == 'file'][0], frame)
+                args = [self.eval(a, frame) for a in st.value.args]
+                extra = sum(a.count('\n') for a in args if isinstance(a, str))
+                if any(k.arg == 'end' for k in st.value.keywords):
+                    raise Unsupported('print with end=')
+                g = fobj.ghost if isinstance(fobj, Obj) else self.ctx.ghost.setdefault('print_targets', {}).setdefault(id(fobj), {})
+                key = 'lines'
+                cur = self.ctx.ghost.get(('lines', id(fobj)), 0)
+                self.ctx.ghost[('lines', id(fobj))] = sym.add(cur, 1 + extra)
+                self.ctx.ghost.setdefault(('printed', id(fobj)), []).append(tuple(args))
+                return
             if nm in ('print', 'warn'):
                 self.ctx.dropped.add(nm + '(...)')
                 return
@@ -1148,7 +1162,7 @@ class Interp:
         self._prove_inv(name + '/inv-init', spec.inv(env), 'inv-init', pop=True)
         which = ctx.choose(2, name)
         for g, v in ginit.items():
-            ctx.ghost[g] = self.havoc_like(v, 'ghost_' + g)
+            ctx.ghost[g] = self.havoc_like(v, 'ghost_' + (g if isinstance(g, str) else '_'.join(str(x) for x in g)))
         # havoc everything the loop assigns
         mods = self.assigned_names(st.body)
         if step is not None:
